@@ -11,6 +11,7 @@ import UnytModel.ResultClass
 import UnytModel.Generated.C16Tables
 import UnytModel.Ref.C16
 import UnytProofs.Lemmas.C16Shape
+import UnytProofs.Lemmas.C16Class
 
 set_option linter.unusedSectionVars false
 set_option linter.unusedVariables false
@@ -37,36 +38,6 @@ theorem binaryReturnClass_is_operand (c1 c2 c : PyCls) (h : binaryReturnClass c1
   unfold binaryReturnClass at h
   repeat' split at h
   all_goals first | (cases h; simp) | cases h
-
-theorem uarray_not_quantity : PyCls.uarray.isQuantity = false := by decide
-theorem uarray_is_unyt : PyCls.uarray.isUnyt = true := by decide
-theorem uquantity_is_quantity : PyCls.uquantity.isQuantity = true := by decide
-theorem uquantity_is_unyt : PyCls.uquantity.isUnyt = true := by decide
-theorem ndarray_not_unyt : PyCls.ndarray.isUnyt = false := by decide
-
-theorem construct_uarray (sh : Shape) : construct .uarray sh = .ok ⟨.uarray, sh⟩ := by
-  simp [construct, uarray_not_quantity, uarray_is_unyt]
-
-theorem construct_uquantity_nil : construct .uquantity [] = .ok ⟨.uquantity, []⟩ := by
-  simp [construct, uquantity_is_quantity, size]
-
-/-- what a successful `cls(value, unit)` is: that class, that shape, a unyt class, and at most
-    one element for the quantity classes -/
-theorem construct_ok (cls : PyCls) (sh : Shape) (r : Res) (h : construct cls sh = .ok r) :
-    r = ⟨cls, sh⟩ ∧ cls.isUnyt = true ∧ (cls.isQuantity = true → size sh ≤ 1) := by
-  unfold construct at h
-  by_cases hq : cls.isQuantity = true
-  · simp only [hq, if_true] at h
-    by_cases hsz : size sh > 1
-    · simp [hsz] at h
-    · simp only [hsz, if_false] at h
-      cases h
-      refine ⟨rfl, ?_, fun _ => by omega⟩
-      revert hq; cases cls <;> decide
-  · simp only [hq, if_false] at h
-    by_cases hu : cls.isUnyt = true
-    · simp only [hu, if_true] at h; cases h; exact ⟨rfl, hu, fun h' => absurd h' hq⟩
-    · simp [hu] at h
 
 /-- wrap-up of every ufunc except `modf`/`divmod` whose unit rule gives a unit: the result is a
     `unyt_quantity` exactly when the raw result has shape `()`, for every class handed in and
@@ -552,41 +523,6 @@ theorem arrayNew_class (cls : PyCls) (inp : NewInput) (r : NewRes) (h : arrayNew
 
 /-! ## 6. reshape, squeeze, transpose and the other class-preserving methods -/
 
-theorem viewOp_nonreshape (cls : PyCls) (s : Shape) (op : ViewOp) (hnr : ∀ t, op ≠ .reshape t) :
-    viewOp cls s op = match viewShape s op with | .error e => .error e | .ok s' => .ok ⟨cls, s'⟩ := by
-  cases op <;> first | rfl | exact absurd rfl (hnr _)
-
-/-- every view-making method other than `repeat` keeps a 0-d object at one element -/
-theorem viewShape_scalar (op : ViewOp) (s' : Shape) (hnr : ∀ t, op ≠ .reshape t)
-    (hrep : ∀ n, op ≠ .repeat_ n) (h : viewShape [] op = .ok s') : size s' = 1 := by
-  cases op with
-  | squeeze => simp [viewShape, squeeze] at h; subst h; rfl
-  | squeezeAxis ax =>
-    simp only [viewShape, squeezeAxis] at h
-    split at h
-    · cases h; rfl
-    · simp [normAxis] at h
-      split at h <;> first | cases h | (split at h <;> cases h) | skip
-      all_goals omega
-  | transpose => simp [viewShape, transpose] at h; subst h; rfl
-  | transposeAxes p =>
-    simp only [viewShape, transposeAxes] at h
-    split at h
-    · rename_i hc
-      have : p = [] := List.length_eq_zero_iff.1 (by simpa using hc.1)
-      subst this; cases h; rfl
-    · cases h
-  | ravel => simp [viewShape, ravel, size] at h; subst h; rfl
-  | expandDims k =>
-    simp only [viewShape, expandDims] at h
-    split at h
-    · rename_i hk
-      have : k = 0 := by simpa using hk
-      subst this; cases h; rfl
-    · cases h
-  | reshape t => exact absurd rfl (hnr t)
-  | repeat_ n => exact absurd rfl (hrep n)
-
 /-- operations for which the class-preserving default path is harmless -/
 def viewGuard (cls : PyCls) (op : ViewOp) : Bool :=
   if cls.isQuantity then
@@ -604,34 +540,6 @@ def viewGuard (cls : PyCls) (op : ViewOp) : Bool :=
 def C16_view_full : Prop :=
   ∀ (cls : PyCls) (s : Shape) (op : ViewOp) (r : Res),
     cls.isUnyt = true → Res.Strict ⟨cls, s⟩ → viewOp cls s op = .ok r → r.Good
-
-theorem viewShape_ne_nil (s : Shape) (op : ViewOp) (s' : Shape) (hs : s ≠ [])
-    (hop : match op with | .squeeze | .squeezeAxis _ => False | .reshape t => t ≠ [] | _ => True)
-    (h : viewShape s op = .ok s') : s' ≠ [] := by
-  cases op with
-  | squeeze => exact absurd hop id
-  | squeezeAxis ax => exact absurd hop id
-  | transpose => simp [viewShape, transpose] at h; subst h; simpa using hs
-  | transposeAxes p =>
-    simp only [viewShape, transposeAxes] at h
-    split at h
-    · rename_i hc; cases h
-      intro hnil
-      have : p = [] := by simpa using hnil
-      rw [this] at hc; simp at hc; exact hs (List.length_eq_zero_iff.1 hc.1.symm)
-    · cases h
-  | ravel => simp [viewShape, ravel] at h; subst h; simp
-  | expandDims k =>
-    simp only [viewShape, expandDims] at h
-    split at h
-    · cases h; simp
-    · cases h
-  | reshape t =>
-    simp only [viewShape] at h
-    have := length_reshape s t s' h
-    intro hnil; rw [hnil] at this; simp at this
-    exact hop (List.length_eq_zero_iff.1 this.symm)
-  | repeat_ n => simp [viewShape] at h; subst h; simp
 
 /-- **C16 for the view-making methods, partial** — for every unyt class, every shape and every
     method outside the guard's excluded region (`squeeze` and `reshape(())` of arrays, `repeat` of
@@ -719,5 +627,171 @@ theorem quantityReshape_class (cls : PyCls) (s : Shape) (t : List Int) (r : Res)
 
 example : viewOp .uquantity [] (.reshape [1, 1]) = .ok ⟨.uarray, [1, 1]⟩ := rfl
 example : viewOp .uarray [2, 3] .transpose = .ok ⟨.uarray, [3, 2]⟩ := rfl
+
+/-! ## 7. lists of quantities in mixed units (`_coerce_iterable_units`) -/
+
+section coerce
+variable {K : Type} [Lean.Grind.Field K]
+
+/-- **list_coercion_first_unit** — a non-empty list of unyt objects is coerced to the *first*
+    element's unit, element for element -/
+theorem list_coercion_first_unit (ne : CoItem K → CoItem K → Bool) (items : List (CoItem K))
+    (vals : List K) (ff : Option (CoItem K)) (h : coerceList ne items = .ok (vals, ff)) :
+    vals.length = items.length ∧
+    ∀ a rest, items = a :: rest → ff.map (fun u => (u.scale, u.offset, u.dim)) = some (a.scale, a.offset, a.dim) := by
+  cases items with
+  | nil => simp [coerceList] at h; obtain ⟨rfl, rfl⟩ := h; simp
+  | cons a rest =>
+    simp only [coerceList] at h
+    split at h
+    · split at h
+      · cases h; simp
+      · cases h
+    · cases h; simp
+
+/-- the only refusal is `IterableUnitCoercionError`, raised exactly when the units differ and
+    some element's dimensions differ from the first element's -/
+theorem list_coercion_refusal (ne : CoItem K → CoItem K → Bool) (a : CoItem K) (rest : List (CoItem K)) (e : SErr) :
+    coerceList ne (a :: rest) = .error e ↔
+      (e = .IterableUnitCoercionError ∧ (a :: rest).any (fun it => ne a it) = true ∧
+        (a :: rest).all (fun it => it.dim == a.dim) = false) := by
+  simp only [coerceList]
+  by_cases h1 : (a :: rest).any (fun it => ne a it) = true
+  · by_cases h2 : (a :: rest).all (fun it => it.dim == a.dim) = true
+    · simp [h1, h2]
+    · simp only [h1, h2, if_true, if_false, Bool.false_eq_true]
+      constructor
+      · intro h; cases h; exact ⟨rfl, trivial, by simpa using h2⟩
+      · rintro ⟨rfl, _, _⟩; rfl
+  · simp [h1]
+
+/-- **values converted** — over any field, with a unit comparison that only calls units equal
+    when scale and offset agree: every coerced value denotes, in the first element's unit, the
+    same base-unit magnitude `s·(x − o)` as the element it came from -/
+theorem list_coercion_values_converted (ne : CoItem K → CoItem K → Bool)
+    (hne : ∀ a b, ne a b = false → a.scale = b.scale ∧ a.offset = b.offset)
+    (a : CoItem K) (rest : List (CoItem K)) (vals : List K) (ff : Option (CoItem K))
+    (ha : a.scale ≠ 0) (h : coerceList ne (a :: rest) = .ok (vals, ff)) :
+    ∀ p ∈ List.zip vals (a :: rest), toBase a.scale a.offset p.1 = toBase p.2.scale p.2.offset p.2.value := by
+  simp only [coerceList] at h
+  split at h
+  · split at h
+    · cases h
+      rw [zip_map_self]
+      intro p hp
+      simp only [List.mem_map] at hp
+      obtain ⟨it, _, rfl⟩ := hp
+      simp only [toBase, applyConv, convFactor]
+      grind
+    · cases h
+  · rename_i hall
+    cases h
+    rw [zip_map_self]
+    intro p hp
+    simp only [List.mem_map] at hp
+    obtain ⟨it, hit, rfl⟩ := hp
+    have : ne a it = false := by
+      cases hn : ne a it with
+      | false => rfl
+      | true => exact absurd (List.any_eq_true.2 ⟨it, hit, hn⟩) hall
+    obtain ⟨e1, e2⟩ := hne a it this
+    simp only [toBase]; rw [e1, e2]
+
+end coerce
+
+/-- non-vacuity over ℚ: `[1 m, 50 cm]` → `[1, 1/2] m` -/
+example : (coerceList (fun a b : CoItem Rat => a.scale != b.scale) [⟨1, 1, 0, Dim.dLength⟩, ⟨50, 1/100, 0, Dim.dLength⟩]).toOption.map (·.1)
+    = some [1, 1/2] := by decide +kernel
+
+/-! ## 8. the shape algebra: when is a result a scalar? -/
+
+/-- broadcasting gives a 0-d result only from two 0-d operands -/
+theorem broadcast_scalar_iff (a b : Shape) : broadcast a b = some [] ↔ a = [] ∧ b = [] :=
+  broadcast_eq_nil_iff a b
+
+/-- a full reduction is 0-d; with `keepdims` a reduction keeps the number of dimensions, so it
+    is 0-d only for a 0-d operand; over a set of axes it is 0-d iff every axis is reduced -/
+theorem reduction_scalar_iff (s : Shape) :
+    reduceAxes s none false = .ok [] ∧
+    (∀ r, reduceAxes s none true = .ok r → (r = [] ↔ s = []) ∧ size r = 1) ∧
+    (∀ axs, reduceFrom 0 axs false s = [] ↔ ∀ j, j < s.length → j ∈ axs) ∧
+    (∀ axs, (reduceFrom 0 axs true s).length = s.length) := by
+  refine ⟨rfl, ?_, ?_, fun axs => reduceFrom_length_keep 0 axs s⟩
+  · intro r h
+    simp [reduceAxes] at h; subst h
+    exact ⟨by simp, size_map_one s⟩
+  · intro axs
+    have := reduceFrom_eq_nil_iff 0 axs s
+    simp at this; exact this
+
+/-- `squeeze` keeps the number of elements and yields a 0-d result exactly for size-1 shapes —
+    which is why the class-preserving `squeeze` of a size-1 `unyt_array` is a 0-d `unyt_array` -/
+theorem squeeze_scalar_iff (s : Shape) : (squeeze s = [] ↔ size s = 1) ∧ size (squeeze s) = size s :=
+  ⟨by rw [squeeze_eq_nil_iff, size_eq_one_iff], size_squeeze s⟩
+
+/-- reshape keeps the number of elements; transposition too, and it never changes 0-d-ness -/
+theorem reshape_transpose_size (s : Shape) :
+    (∀ t r, reshape s t = .ok r → size r = size s ∧ r.length = t.length) ∧
+    size (transpose s) = size s ∧ (transpose s = [] ↔ s = []) :=
+  ⟨fun t r h => ⟨size_reshape s t r h, length_reshape s t r h⟩, size_reverse s, by simp [transpose]⟩
+
+/-- **index shape (integers)** — `a[i₁, …, i_k]` with in-range integers has the shape of `a`
+    without its first `k` dimensions; it is 0-d iff every dimension is indexed -/
+theorem index_ints_scalar_iff (is : List Int) (s : Shape) (h : intsInRange is s = true) :
+    index s (is.map Ix.int) = .ok (s.drop is.length) ∧ (s.drop is.length = [] ↔ is.length = s.length) := by
+  refine ⟨index_ints is s h, ?_⟩
+  have := intsInRange_length is s h
+  simp only [List.drop_eq_nil_iff]
+  omega
+
+/-- **index shape (any form)** — whatever the mix of integers, slices, Ellipsis, newaxis,
+    boolean masks and integer arrays: a 0-d result is only possible when every item is an
+    integer, an Ellipsis or a 0-d integer array -/
+theorem index_scalar_needs_integers (s : Shape) (ixs : List Ix) (h : index s ixs = .ok []) :
+    ∀ ix ∈ ixs, (∃ i, ix = .int i) ∨ ix = .ellipsis ∨ (∃ lo hi, ix = .fancy [] lo hi) := by
+  intro ix hix
+  have := index_scalar_items s ixs h ix hix
+  cases ix with
+  | int i => exact Or.inl ⟨i, rfl⟩
+  | ellipsis => exact Or.inr (Or.inl rfl)
+  | fancy sh lo hi =>
+    simp [Ix.minRank] at this
+    subst this; exact Or.inr (Or.inr ⟨lo, hi, rfl⟩)
+  | slice a b st => simp [Ix.minRank] at this
+  | newaxis => simp [Ix.minRank] at this
+  | mask ms nt => simp [Ix.minRank] at this
+
+/-- … hence on an array-class parent: full integer indexing is exactly what yields a
+    `unyt_quantity`, partial integer indexing a sub-array of the parent's class -/
+theorem getitem_ints_class {U : Type} (nu : U) (p : Obj U) (is : List Int)
+    (hp : p.cls.isQuantity = false) (h : intsInRange is p.shape = true) :
+    ∃ r, getitem nu p (is.map Ix.int) = .ok r ∧ r.shape = p.shape.drop is.length ∧ r.md = p.md ∧
+      (r.cls = .uquantity ↔ is.length = p.shape.length) ∧ (is.length < p.shape.length → r.cls = p.cls) := by
+  have hidx := (index_ints_scalar_iff is p.shape h)
+  cases hg : getitem nu p (is.map Ix.int) with
+  | error e =>
+    unfold getitem at hg
+    simp only [hidx.1, npGetitem] at hg
+    split at hg
+    · cases hg
+    · split at hg <;> cases hg
+  | ok r =>
+    have ho := getitem_ok nu p _ r hg
+    have hsh : r.shape = p.shape.drop is.length := by
+      have := ho.1; rw [hidx.1] at this; injection this with e; exact e.symm
+    refine ⟨r, rfl, hsh, ho.2.1, ?_, ?_⟩
+    · rcases ho.2.2 with ⟨hc, hs⟩ | ⟨hc, hs⟩
+      · exact ⟨fun _ => hidx.2.1 (hsh ▸ hs), fun _ => hc⟩
+      · constructor
+        · intro hq; rw [hc] at hq; rw [hq] at hp; simp [uquantity_is_quantity] at hp
+        · intro hl; exact absurd (hsh ▸ hidx.2.2 hl) hs
+    · intro hl
+      rcases ho.2.2 with ⟨hc, hs⟩ | ⟨hc, hs⟩
+      · have := hidx.2.1 (hsh ▸ hs); omega
+      · exact hc
+
+example : index [2, 3, 4] [.int 1, .int (-1), .int 0] = .ok [] := rfl
+example : index [2, 3, 4] [.ellipsis, .int 0] = .ok [2, 3] := rfl
+example : index [3] [.mask [3] 2] = .ok [2] := rfl
 
 end Unyt.C16
